@@ -23,6 +23,7 @@ CHECK = {
   'instances': {
     'quick': [
       G('addr4', 'base', 'naddr=4', 'prop=C06', 'depth=9'),
+      G('addr5-d8', 'base', 'naddr=5', 'prop=C06', 'depth=8'),
       G('addr3', 'base', 'naddr=3', 'prop=C06'),
       G('addr3-asan', 'asan', 'naddr=3', 'prop=C06'),
       G('own3', 'base', 'mode=own', 'n=3'), G('own3-asan', 'asan', 'mode=own', 'n=3'), G('exit5', 'base', 'mode=exit', 'depth=5'), G('exit4-asan', 'asan', 'mode=exit', 'depth=4'),
